@@ -28,7 +28,8 @@ CHECKS = {
     "C02": [("R-DIVZERO", "r_divzero", "run", ("quick", "thorough")),
             ("R-CONTRACT", "r_contract", "run", ("quick", "thorough"))],
     "C17": [("R-STREAM", "r_stream", "run", ("quick", "thorough")),
-            ("R-TMP.io", "r_tmp", "run_io", ("quick", "thorough"))],
+            ("R-TMP.io", "r_tmp", "run_io", ("quick", "thorough")),
+            ("R-ALLOC.io", "r_alloc", "run_io", ("quick", "thorough"))],
     "C14": [("R-PURE", "r_assert", "run_pure", ("quick", "thorough")),
             ("R-CONSTASSERT", "r_assert", "run_constassert", ("quick", "thorough")),
             ("R-TMP.modes", "r_tmp", "run_modes", ("quick", "thorough")),
@@ -63,6 +64,7 @@ RULES = {
     "R-CONSTSRC.ir": ("r_constsrc", "run"),
     "R-SAMESRC": ("r_samesrc", "run"),
     "R-EXTENT.tmp": ("r_extent", "run"),
+    "R-ALLOC.io": ("r_alloc", "run_io"),
 }
 
 EXPLANATION = {
@@ -135,7 +137,8 @@ EXPLANATION = {
     "C17": "Static path analysis of every library function that takes a FILE*: each stream transfer (fwrite, fputc, putc, "
            "fprintf, fread, nested library stream calls) must have its outcome learnt - its result compared with the value the "
            "call returns on success, or ferror tested - before any return that does not return the failure constant; plus "
-           "the TMP protocol on the I/O functions' failure exits (no leak).  Decides the fault-reporting clause of the property; "
+           "the TMP protocol and the heap allocator pairing on the I/O functions' failure exits (no leak: e.g. the digit string of a %Zd "
+           "conversion is freed even when the write of the conversion fails).  Decides the fault-reporting clause of the property; "
            "bit-packing and round-trip values are not decided.",
     "C04": "Static analysis of the allocator and temporary-memory discipline on every path of every function.",
 }
@@ -198,6 +201,7 @@ ASSUMPTIONS = {
     "R-STREAM": ["libc failure conventions: fwrite/fread return the item count, fputc/putc/fputs return EOF, fprintf a negative value; "
                  "library stream functions return 0 on failure",
                  "getc-based parsers are not covered by this rule (EOF handling is value-dependent)"],
+    "R-ALLOC.io": ["R-ALLOC.size / .pair restricted to the I/O units and printf/ scanf/ (same assumptions)"],
     "R-TMP.io": ["R-TMP restricted to the units that perform stream / raw / string I/O"],
     "R-CONSTSRC.ir": ["pointer derivation in the IR is a closure over GEP / cast / phi / select / returned pointers after SROA; pointers loaded "
                       "from memory are not followed (the mpz layer's PTR (u) is covered by aliasflow's R-CONSTSRC)",
